@@ -59,6 +59,7 @@ type progCfg struct {
 	extent    uint // if > 0: page ids may reach this bound (file shrunk below its extent)
 	concrete  bool // page contents are concrete sequence numbers instead of solver variables
 	capacity  int  // size of the simulated disk in bytes (0: 96 KiB)
+	slowDisk  bool // native replay: the disk is slow, so that the background writer lags behind the transaction
 }
 
 const (
@@ -115,6 +116,7 @@ func verifNewProg(cfg *progCfg) *progState {
 		capacity = cfg.capacity
 	}
 	disk := newMemFile(capacity)
+	disk.slow = cfg.slowDisk
 	f, err := openWith(disk, cfg.options())
 	verifAssert(err == nil, "creating a file on an empty disk succeeds")
 	f.reportOpen()
@@ -459,6 +461,7 @@ func (s *progState) reopen() {
 	verifLog("reopen")
 	verifAssert(s.f.Close() == nil, "File.Close succeeds")
 	s.disk = memFileFrom(s.disk.image(), cap(s.disk.data))
+	s.disk.slow = s.cfg.slowDisk
 	f, err := openWith(s.disk, s.cfg.options())
 	verifAssert(err == nil, "reopening a cleanly closed file succeeds")
 	f.reportOpen()
